@@ -34,3 +34,7 @@ func vNoBytesIn(s string, lo, hi int, set string) bool  { return false }
 func vHasPrefixS(s, p string) bool                       { return false }
 func vSetAddrMax(n int)                                  {}
 func vNondetText(site string, max int) string            { return "" }
+func vRecordBool(label string, v bool)                    {}
+func vRecordU64(label string, v uint64)                   {}
+func vRecordString(label string, v string)                {}
+func vRecordBytes(label string, v []byte)                 {}
